@@ -540,7 +540,7 @@ func c05DecodeStats(k *c05Kind, st *format.Statistics, hasValues bool) (s c05Sta
 
 func runStatsFiles(ctx *core.Ctx, c05 bool) {
 	if c05 {
-		ctx.SetRule("files written with the typed GenericWriter from a 32-column struct (required+optional int32/int64/uint32/uint64/float/double/string/[]byte/FLBA(5)/FLBA(20)/be128/uuid/decimal int32,int64,FLBA(9)/bool), PageBufferSize(1) so each Write call is one page per column, all-null pages in every position, all-NaN pages, ColumnIndexSizeLimit 1..64, page versions 1 and 2, data page statistics on; read back through the page reader; recorded column index / offset index / chunk statistics / page header statistics checked against the values read (L1) and against the Lean mirrors of Bounds and of the chunk fold (L2); distinct by file content, non-trivial = at least 2 pages")
+		ctx.SetRule("files written with the typed GenericWriter from a 32-column struct (required+optional int32/int64/uint32/uint64/float/double/string/[]byte/FLBA(5)/FLBA(20)/be128/uuid/decimal int32,int64,FLBA(9)/bool), PageBufferSize(1) so each Write call is one page per column, all-null pages in every position, all-NaN pages, ColumnIndexSizeLimit 1..64, page versions 1 and 2, data page statistics on; plus files of dictionary-encoded columns of every order (c05DictRow: DictionaryMaxBytes 0/1..96 so chunks fall back to PLAIN mid-way, variable-width BYTE_ARRAY decimals with equal values in different widths) and WriteRowGroup copies (verbatim and re-encoded, the re-encoded copy's chunk statistics compared with the source's); read back through the page reader; recorded column index / offset index / chunk statistics / page header statistics checked against the values read (L1) and against the Lean mirrors of Bounds, of the chunk fold, of the whole chunk record and of the level model of nested pages (L2); distinct by file content, non-trivial = at least 2 pages")
 	} else {
 		ctx.SetRule("same generated files as C05/files: parquet.Search on the file's column index for every distinct value of every page (must return a page at or before the first page holding the value, whose bounds contain it) and for absent probes around the bounds; distinct by file content, non-trivial = at least 2 pages")
 	}
@@ -573,6 +573,9 @@ func runStatsFiles(ctx *core.Ctx, c05 bool) {
 				}
 				for i := w; i < ctx.Scale(300, 8000); i += workers {
 					c05HistFile(ctx, b, fmt.Sprintf("statshist#%d", i))
+				}
+				for i := w; i < ctx.Scale(240, 6000); i += workers {
+					c05DictFile(ctx, b, fmt.Sprintf("statsdict#%d", i))
 				}
 			}
 			for i := 0; i < nfiles/workers; i++ {
@@ -1078,7 +1081,7 @@ func c05CheckChunk(ctx *core.Ctx, b *c05Batch, k *c05Kind, col c05Col, f *c05Fil
 					switch {
 					case skipped:
 						ctx.Fail("L1", "skip-page-bounds-zero-index", "a column written with SkipPageBounds has a column index whose min/max (the zero value, null_pages=false) do not bound the page: readers pruning by it skip pages that hold matching values", d())
-					case key == "max-below-value" && k.isBytes() && c05TruncAllFF(p.vals, f.lim):
+					case key == "max-below-value" && k.isBytes() && k.drv != "dec" && c05TruncAllFF(p.vals, f.lim): // (the decimal indexer never truncates)
 						ctx.Fail("L1", "truncmax-all-ff-prefix", "column index max is smaller than a value of the page: the max was truncated to a prefix of all 0xFF bytes", d())
 					default:
 						ctx.Fail("L1", c05BoundKey("index-", key, col.kind), "column index: "+what, d())
@@ -1205,6 +1208,33 @@ func c05CheckChunk(ctx *core.Ctx, b *c05Batch, k *c05Kind, col c05Col, f *c05Fil
 	}
 	if len(all) > 0 && !s.has && !skipped {
 		ctx.Fail("L1", "chunk-stats-missing "+col.kind, "the chunk has values but no min/max", d())
+	}
+	// the same statistics through the reader API a pruning reader calls (FileColumnChunk.Bounds/NullCount/NumValues)
+	if fcc, isFile := cc.(*parquet.FileColumnChunk); isFile && !skipped {
+		var amn, amx c05Val
+		var has bool
+		if p := c05Recover(func() {
+			mn, mx, ok := fcc.Bounds()
+			has = ok
+			if ok {
+				amn, amx = k.fromValue(mn), k.fromValue(mx)
+			}
+		}); p != nil {
+			ctx.Fail("L1", "filechunk-bounds-panic "+col.kind, fmt.Sprint(p), d())
+		} else {
+			da := func() map[string]any {
+				return detail(map[string]any{"api_min": k.text(amn), "api_max": k.text(amx), "api_has": has, "api_nulls": fcc.NullCount(), "api_num_values": fcc.NumValues()})
+			}
+			if key, what := c05BoundsOracle(k, all, amn, amx, has, false); key != "" && key != "bound-nan-with-non-nan-values" {
+				ctx.Fail("L1", c05BoundKey("filechunk-bounds-", key, col.kind), "FileColumnChunk.Bounds(): "+what, da())
+			}
+			if has != s.has || (has && !k.isNaN(amn) && !k.isNaN(s.min) && (k.cmp(amn, s.min) != 0 || k.cmp(amx, s.max) != 0)) {
+				ctx.Fail("L1", "filechunk-bounds-differ-from-metadata "+col.kind, "FileColumnChunk.Bounds() does not return the min/max of the chunk's statistics", da())
+			}
+			if fcc.NullCount() != int64(totalNulls) || fcc.NumValues() != int64(total) {
+				ctx.Fail("L1", "filechunk-counts-wrong "+col.kind, fmt.Sprintf("FileColumnChunk.NullCount()=%d NumValues()=%d, %d nulls and %d values read", fcc.NullCount(), fcc.NumValues(), totalNulls, total), da())
+			}
+		}
 	}
 	// L2: the chunk fold of recordPageStats over the exact page bounds
 	if k.drv != "" && pageBounds != nil && len(pageBounds) == len(pages) && !skipped {
